@@ -441,3 +441,107 @@ def bounds_and_latest(ck, mod):
     allk.update(k)
     ok = len(rec) == 1 and out == "RESULT" and allk.get("start_sample") == 77 and allk.get("end_sample") in (None, 77) and allk.get("columns") == ["x"] and allk.get("method") in ("ffill", "pad")
     ck.struct("dmd.read_latest.reads_at_last_bound_with_ffill", ok, "read_latest called read%s" % (rec,), {})
+
+
+def _flatten_spec(d, prefix=""):
+    """specification of the field names of a (nested) metadata sample: '/'-joined key path of every leaf, depth-first in insertion order"""
+    out = []
+    for k, v in d.items():
+        if isinstance(v, dict):
+            out.extend(_flatten_spec(v, prefix + k + "/"))
+        else:
+            out.append((prefix + k, v))
+    return out
+
+
+def writer_inputs(ck, mod):
+    """DigitalMetadataWriter.write input handling (enumerated shapes): what reaches _write for sample i is exactly the flattened
+    (path, value) pairs of that sample's metadata, for dict-of-values (per-sample arrays of length N, or one value for all samples)
+    and list-of-dicts input, with arbitrarily nested dicts; empty or mismatched input is refused before anything is written."""
+    import numpy as np
+    W = mod.DigitalMetadataWriter
+    for nm in ("DigitalMetadataWriter.write", "_recursive_items"):
+        ck.add_function(pyload.source_info(mod, nm))
+    bad = []
+    n = 0
+    leaves = lambda tag, N: {"scalar": 7, "text": "abc", "per_sample": np.arange(N) + 10, "vector_for_all": np.arange(N + 2), "none": None}
+    shapes = [
+        lambda L: {"a": L["scalar"]},
+        lambda L: {"a": L["per_sample"], "b": L["text"]},
+        lambda L: {"rx": {"gain": L["per_sample"], "name": L["text"]}, "z": L["scalar"]},
+        lambda L: {"rx": {"lo": {"freq": L["per_sample"], "lock": L["scalar"]}, "name": L["text"]}, "lo": L["vector_for_all"]},
+        lambda L: {"a": {"b": {"c": {"d": L["per_sample"]}}}, "n": L["none"]},
+    ]
+    for N in (1, 3):
+        L = leaves("x", N)
+        for mk in shapes:
+            data = mk(L)
+            # (1) _recursive_items against the specification
+            n += 1
+            got = list(mod._recursive_items(data))
+            want = _flatten_spec(data)
+            if [g[0] for g in got] != [w[0] for w in want] or any(g[1] is not w[1] for g, w in zip(got, want)):
+                bad.append(("_recursive_items", str(data)[:120], [g[0] for g in got], [w[0] for w in want]))
+            # (2) write(): dict form and the equivalent list-of-dicts form
+            per_sample = []
+            for i in range(N):
+                def pick(d):
+                    o = {}
+                    for k, v in d.items():
+                        if isinstance(v, dict):
+                            o[k] = pick(v)
+                        elif isinstance(v, np.ndarray) and len(v) == N:
+                            o[k] = v[i]
+                        else:
+                            o[k] = v
+                    return o
+                per_sample.append(pick(data))
+            for form, arg in (("dict", data), ("list", per_sample)):
+                n += 1
+                rec = []
+                self_ = types.SimpleNamespace(_fields=None, _set_fields=lambda names: rec.append(("fields", list(names))),
+                                              _write=lambda samples, keyvals: rec.append(("write", list(samples), [list(kv) for kv in keyvals])))
+                try:
+                    W.write(self_, list(range(100, 100 + N)), arg)
+                except Exception as e:
+                    bad.append(("write raised", form, str(data)[:100], repr(e)))
+                    continue
+                wr = [r for r in rec if r[0] == "write"]
+                ok = len(wr) == 1 and [int(x) for x in wr[0][1]] == list(range(100, 100 + N)) and len(wr[0][2]) == N
+                if ok:
+                    for i in range(N):
+                        want_i = _flatten_spec(per_sample[i])
+                        got_i = wr[0][2][i]
+                        same = [g[0] for g in got_i] == [w[0] for w in want_i] and all(
+                            (g[1] is w[1]) or (np.array_equal(g[1], w[1]) if isinstance(w[1], np.ndarray) or isinstance(g[1], np.ndarray) else g[1] == w[1]) for g, w in zip(got_i, want_i))
+                        ok = ok and same
+                if not ok:
+                    bad.append(("write", form, str(data)[:100], wr[0][2][:1] if wr else None))
+    # refusals
+    for what, samples, data in (("no samples", [], {"a": 1}), ("list length mismatch", [1, 2, 3], [{"a": 1}, {"a": 2}]), ("negative sample", [-1], {"a": 1})):
+        n += 1
+        rec = []
+        self_ = types.SimpleNamespace(_fields=None, _set_fields=lambda names: None, _write=lambda s_, kv: rec.append(1))
+        try:
+            W.write(self_, samples, data)
+            if what != "negative sample":
+                bad.append(("accepted", what))
+        except ValueError:
+            if rec:
+                bad.append(("refused after writing", what))
+        except Exception as e:
+            if what != "negative sample":
+                bad.append(("wrong exception", what, repr(e)))
+    # a dict containing itself is refused, not looped over
+    cyc = {"a": 1}
+    cyc["self"] = cyc
+    n += 1
+    try:
+        list(mod._recursive_items(cyc))
+        bad.append(("cyclic dict accepted",))
+    except ValueError:
+        pass
+    except RecursionError:
+        bad.append(("cyclic dict recursed without bound",))
+    ck.enumerations.append(("dmd.write.inputs", n, len(bad), bad[:3]))
+    ck.struct("dmd.write.inputs", not bad, "write()/_recursive_items deviate from the field-name contract: %s" % (bad[:3],), {"no_input": False})
